@@ -135,9 +135,12 @@ def main(argv=None):
     st.add_argument("--prop", action="append")
     st.add_argument("--repo", default=None)
     st.add_argument("--jobs", type=int, default=8)
+    st.add_argument("--cross-negatives", action="store_true")
     args = ap.parse_args(argv)
     if args.cmd == "selftest":
-        from .selftest import selftest
+        from .selftest import selftest, cross_negatives
+        if args.cross_negatives:
+            return 1 if cross_negatives(args.repo, args.jobs) else 0
         res = selftest(args.repo, args.only, args.prop, args.jobs)
         return 1 if any(r["status"] in ("MISSED", "FALSE-ALARM") for r in res) else 0
     if args.cmd == "explain":
